@@ -517,6 +517,8 @@ def azimuthal(
         data = np.concatenate(
             [np.asarray(xdata)[:, np.newaxis], np.asarray(ydata)[:, np.newaxis]], axis=1
         )
+    # (The binning calculation would swallow it)
+    dtype = kwargs.pop("dtype", None)
     data, array_mask = extract_transformed_data(
         data, transformed=transformed, klass=AzimuthalHistogram, dropna=dropna
     )
@@ -529,6 +531,7 @@ def azimuthal(
         data=data,
         binning=bin_schema,
         weights=extract_weights(weights, array_mask=array_mask),
+        dtype=dtype,
     )
 
 
@@ -570,6 +573,7 @@ def radial(
                 axis=1,
             )
 
+    dtype = kwargs.pop("dtype", None)
     data, array_mask = extract_transformed_data(
         data, transformed=transformed, klass=RadialHistogram, dropna=dropna
     )
@@ -578,7 +582,7 @@ def radial(
     )
     weights = extract_weights(weights, array_mask=array_mask)
     return RadialHistogram.from_calculate_frequencies(
-        data=data, binning=bin_schema, weights=weights
+        data=data, binning=bin_schema, weights=weights, dtype=dtype
     )
 
 
@@ -602,6 +606,7 @@ def spherical(
             "Please, use `radial_range`, `theta_range` and `phi_range` arguments instead of `range`"
         )
 
+    dtype = kwargs.pop("dtype", None)
     transformed_array, array_mask = extract_transformed_data(
         data, transformed=transformed, klass=SphericalHistogram, dropna=dropna
     )
@@ -636,6 +641,7 @@ def spherical(
         transformed_array,
         binnings=bin_schemas,
         weights=extract_weights(weights, array_mask=array_mask),
+        dtype=dtype,
     )
 
 
@@ -744,6 +750,7 @@ def cylindrical_surface(
             "Please, use `phi_range` and `z_range` arguments instead of `range`"
         )
 
+    dtype = kwargs.pop("dtype", None)
     transformed_array, array_mask = extract_transformed_data(
         data,
         transformed=transformed,
@@ -773,6 +780,7 @@ def cylindrical_surface(
         transformed_array,
         binnings=bin_schemas,
         weights=extract_weights(weights, array_mask=array_mask),
+        dtype=dtype,
     )
     return CylindricalSurfaceHistogram(
         binnings=bin_schemas,
@@ -780,6 +788,7 @@ def cylindrical_surface(
         errors2=errors2,
         radius=radius,
         missed=missed,
+        dtype=dtype,
     )
 
 
